@@ -101,6 +101,47 @@ def run_case(case):
                         break
                 if gt(n, len(ref)):
                     viol.append(dict(mech='open:more-snapshots-than-ever-written', msg='%s: %d > %d' % (tag, n, len(ref))))
+    elif kind == 'open_capi':
+        # the same image through the C-only entry points (cdrv/sa_capi.c, ASan+UBSan build): what a C program linking librebound sees
+        import subprocess
+        counters['images_opened_c_api'] = 1
+        env = dict(os.environ, ASAN_OPTIONS='abort_on_error=0:detect_leaks=0:halt_on_error=1', UBSAN_OPTIONS='print_stacktrace=1:halt_on_error=1')
+        env.pop('LD_PRELOAD', None)
+        p = subprocess.run([case['bin'], case['image']], capture_output=True, text=True, env=env, timeout=60)
+        out = p.stdout.splitlines()
+        completed = case['completed']
+        if p.returncode != 0 or 'DONE' not in out:
+            import re
+            mm = re.search(r'(AddressSanitizer|runtime error)[: ]+([a-zA-Z\-]+)', p.stderr)
+            fn = re.search(r'#\d+ 0x[0-9a-f]+ in (reb_\w+)', p.stderr)
+            viol.append(dict(mech='open:process-death:c-api:%s:%s' % (mm.group(2) if mm else 'signal', fn.group(1) if fn else '?'),
+                             msg='%s: C program opening the image died (rc=%r): %s' % (tag, p.returncode, p.stderr[-400:])))
+        else:
+            sa_line = next((l for l in out if l.startswith('SA ')), 'SA ?')
+            snaps = [l.split() for l in out if l.startswith('SNAP ')]
+            nb = int(sa_line.split('=')[1]) if 'nblobs=' in sa_line else 0
+            file_ok = any(l.startswith('FILE last') for l in out)
+            if completed == 0:
+                counters['images_without_complete_snapshot_c_api'] = 1
+                if nb != 0 or file_ok or any(s_[-1] != 'NULL' for s_ in snaps):
+                    viol.append(dict(mech='open:success-with-no-complete-snapshot:c-api', msg='%s: no snapshot had been completely written, the C API reports %s / %s' % (tag, sa_line, 'a simulation' if file_ok else 'NULL')))
+            else:
+                if nb < completed:
+                    viol.append(dict(mech='open:loses-completed-snapshots:c-api', msg='%s: %d snapshots were completely written, the C API exposes %d' % (tag, completed, nb)))
+                elif nb > completed:
+                    viol.append(dict(mech='open:exposes-incomplete-snapshot:c-api', msg='%s: %d completed, C API exposes %d' % (tag, completed, nb)))
+                for s_ in snaps[:len(ref)]:
+                    j = int(s_[1])
+                    if s_[-1] == 'NULL':
+                        viol.append(dict(mech='open:exposed-snapshot-does-not-load:c-api', msg='%s: snapshot %d' % (tag, j)))
+                        break
+                    import struct
+                    it, lt = struct.pack('<Q', int(s_[2].split('=')[1])).hex(), struct.pack('<Q', int(s_[3].split('=')[1])).hex()
+                    if it != ref[j][0] or lt != ref[j][0]:
+                        viol.append(dict(mech='open:exposed-snapshot-differs:c-api', msg='%s: snapshot %d: index time bits %s, loaded time bits %s, uninterrupted run %s' % (tag, j, it, lt, ref[j][0])))
+                        break
+                if not file_ok:
+                    viol.append(dict(mech='open:error-although-snapshots-complete:c-api', msg='%s: reb_simulation_create_from_file(path, -1) returned NULL with %d complete snapshots' % (tag, completed)))
     elif kind == 'restart':
         counters['restarts'] = 1
         counters['restart_class:' + case['cls']] = 1
@@ -180,6 +221,7 @@ def main(tier, seed):
     env = B.env_for('rel', bdir)
     shutil.copy(os.path.join(bdir, 'rebound.html'), td)
     all_cases = {'rel': [], 'asan': []}
+    capi_bin = B.cdriver('sa_capi', 'asan', ['sa_capi.c'])
     validated = 0
     exhaustive_scn = []
     inc = []
@@ -258,6 +300,12 @@ def main(tier, seed):
             case = dict(kind='open', image=ip, k=k, completed=completed, content=content, cls=cls, ref=ref, scn=scn, variant=variant)
             all_cases[variant].append(case)
             stats['images'] += 1
+            if k % 5 == 0 or (cls.startswith('blob0') and 'payload' not in cls) or cls in ('inside-header', 'in-place-trailer-patch', 'delta-trailer', 'delta-END', 'exactly-on-snapshot-boundary'):
+                c3 = dict(case)
+                c3['kind'] = 'open_capi'
+                c3['variant'] = 'rel'
+                c3['bin'] = capi_bin
+                all_cases['rel'].append(c3)
             # restarts: every boundary class sampled + a stride
             if 0 < completed < len(ref) and (k % 23 == 0 or abs(k - min(stream.close_pos, key=lambda c: abs(c - k))) <= 14):
                 c2 = dict(case)
@@ -320,6 +368,8 @@ def main(tier, seed):
         inc.append('no restart executed')
     if validated == 0:
         inc.append('image model never validated against a really killed writer')
+    if V.counters.get('images_opened_c_api', 0) == 0:
+        inc.append('no image opened through the C API')
     return V.finish(
         rule="crash points = byte prefixes of the strace-recorded write stream of scripted archive-writing runs; scenarios marked full are enumerated at EVERY byte "
              "(%s), the others every 7th byte plus every byte within 60 of a save-call boundary; each image is opened through the real reader (4/5 release, 1/5 ASan build) "
